@@ -307,7 +307,8 @@ Definition exec (c : cmd) (fault : bool) (w : world) : world * resp c :=
   match c return world * resp c with
   | MemSetKeysets ks act => (mkWorld (w_db w1) (w_ln w1) ks act (w_calls w1), tt)
   | LnCreateInvoice amount h =>
-      if l_createerr (w_ln w1) then (w1, RErr) else
+      (* a node does not make an invoice whose amount in millisatoshi does not fit 64 bits *)
+      if l_createerr (w_ln w1) || (two64 <=? amount * 1000) then (w1, RErr) else
       let l := w_ln w1 in
       (set_ln w1 (mkLn (l_inv l ++ [mkInv h amount false true (amount * 1000)]) (l_pay l) (l_look l) (l_calls l) (l_inverr l) (l_createerr l)),
        ROk (h, h))
